@@ -147,6 +147,69 @@ theorem sql_prefilter_generated_self1 (kl0 kr0 : Expr) (db : Db) :
   rw [Lemmas.BCountSql.gen_self1]
   exact Lemmas.BCountSql.preFilterTotal_eq false [(kl0, kr0)] (by simp) db
 
+/-- **`__splink__df_concat`.**  The hand-written loop form over the input tables is the regenerated statement for 1, 2 and 3
+input tables; it evaluates to the rows of the input tables in order (with the table's alias in front as `source_dataset` when
+there are several), whenever every input row has the `w` columns the statement lists; and the whole self-join pipeline —
+`__splink__df_concat` included — reports the size of the equi-join of these concatenated rows with themselves. -/
+theorem sql_concat (w : Nat) (names : List String) (hne : names ≠ []) (keys : List (Expr × Expr)) (hk : keys ≠ [])
+    (db : Db) (hw : ∀ n ∈ names, ∀ row ∈ db n, row.length = w) :
+    (Gen.BCountSql.self1Concat = concatStmt 7 ["input_0"] ∧
+      Gen.BCountSql.self2Concat = concatStmt 7 ["input_0", "input_1"] ∧
+      Gen.BCountSql.self3Concat = concatStmt 7 ["input_0", "input_1", "input_2"]) ∧
+    (concatStmt w names).eval db = concatRows names db ∧
+    totalOf ((runStmts db (selfCountStmts w names keys)) nameTotal)
+      = equiJoinSize keys (concatRows names db) (concatRows names db) :=
+  ⟨⟨Lemmas.BCountSql.gen_concat.1, Lemmas.BCountSql.gen_concat.2.1, Lemmas.BCountSql.gen_concat.2.2.1⟩,
+   Lemmas.BCountSql.concat_eval w names hne db hw,
+   Lemmas.BCountSql.selfCount_total w names hne keys hk db hw⟩
+
+/-- **`_row_counts_per_input_table`** (the regenerated `__splink__df_count` statements): `dedupe_only` — one row holding the number
+of rows of `__splink__df_concat`; otherwise one row per distinct value of the source dataset column, holding the number of rows
+with that value; and these counts are the functional model's per-dataset counts `sdCounts t` for every table `t` whose `sd`
+is an injective coding of that column. -/
+theorem sql_row_counts (sd : Expr) (db : Db) :
+    rowCounts true sd db = [[Val.int ((db nameConcat).length : Nat)]] ∧
+    rowCounts false sd db
+      = (((db nameConcat).map sd.eval).eraseDups).map (fun s =>
+          [Val.int (((db nameConcat).filter fun r => sd.eval r == s).length : Nat)]) ∧
+    ∀ (t : Blocking.Table) (code : Val → Nat), (∀ a b, code a = code b → a = b) → t.m = (db nameConcat).length →
+      (∀ i, i < t.m → t.sd i = code (sd.eval ((db nameConcat).getD i []))) →
+      countsOf (rowCounts false sd db) = Lemmas.BA.sdCounts t :=
+  ⟨Lemmas.BCountSql.rowCounts_dedupe sd db, Lemmas.BCountSql.rowCounts_bySd sd db,
+   fun t code hinj hm hsd => Lemmas.BCountSql.countsOf_bySd sd db t code hinj hm hsd⟩
+
+/-- **The Cartesian count derived from the SQL row counts is the number of admissible pairs** (`link_only`, at least two
+non-empty datasets): the *generated* `calculate_cartesian` applied to the counts the regenerated statement returns. -/
+theorem sql_cartesian_link_only (sd : Expr) (db : Db) (t : Blocking.Table) (code : Val → Nat)
+    (hinj : ∀ a b, code a = code b → a = b) (hm : t.m = (db nameConcat).length)
+    (hsd : ∀ i, i < t.m → t.sd i = code (sd.eval ((db nameConcat).getD i [])))
+    (hwf : Lemmas.Blk.WFKeys t) (hk : 2 ≤ (rowCounts false sd db).length) :
+    Gen.calculate_cartesian ((countsOf (rowCounts false sd db)).map fun (n : ℕ) => (n : ℚ)) "link_only" =
+      some ((BlockingAnalysis.admissiblePairs .linkOnly t : ℕ) : ℚ) := by
+  have hc := Lemmas.BCountSql.countsOf_bySd sd db t code hinj hm hsd
+  have hk' : 2 ≤ (Lemmas.BA.sdCounts t).length := by
+    rw [← hc]; simpa [countsOf] using hk
+  rw [hc]
+  exact Lemmas.BA.cartesian_link_only t hwf hk'
+
+/-- … `link_and_dedupe` … -/
+theorem sql_cartesian_link_and_dedupe (sd : Expr) (db : Db) (t : Blocking.Table) (code : Val → Nat)
+    (hinj : ∀ a b, code a = code b → a = b) (hm : t.m = (db nameConcat).length)
+    (hsd : ∀ i, i < t.m → t.sd i = code (sd.eval ((db nameConcat).getD i [])))
+    (hwf : Lemmas.Blk.WFKeys t) :
+    Gen.calculate_cartesian ((countsOf (rowCounts false sd db)).map fun (n : ℕ) => (n : ℚ)) "link_and_dedupe" =
+      some ((BlockingAnalysis.admissiblePairs .linkAndDedupe t : ℕ) : ℚ) := by
+  rw [Lemmas.BCountSql.countsOf_bySd sd db t code hinj hm hsd]
+  exact Lemmas.BA.cartesian_link_and_dedupe t hwf _ (Lemmas.BA.sdCounts_sum t)
+
+/-- … and `dedupe_only` (one `count(*)`). -/
+theorem sql_cartesian_dedupe (sd : Expr) (db : Db) (t : Blocking.Table) (hm : t.m = (db nameConcat).length)
+    (hwf : Lemmas.Blk.WFKeys t) :
+    Gen.calculate_cartesian ((countsOf (rowCounts true sd db)).map fun (n : ℕ) => (n : ℚ)) "dedupe_only" =
+      some ((BlockingAnalysis.admissiblePairs .dedupeOnly t : ℕ) : ℚ) := by
+  rw [Lemmas.BCountSql.rowCounts_dedupe, ← hm]
+  exact Lemmas.BA.cartesian_dedupe t hwf
+
 /-! ## Non-vacuity -/
 
 /-- keys `[a, a, b, NULL]` joined with themselves on column 0: blocks a (2×2) and b (1×1), the NULL row joins nothing. -/
@@ -162,6 +225,22 @@ example : preFilterTotal false [(Expr.col 0, Expr.col 0)] demoDb = 5 ∧
 example : preFilterTotal true [(Expr.col 0, Expr.col 0), (Expr.col 1, Expr.col 1)]
     (Db.set (Db.set (fun _ => []) "input_0" [[Val.str "x", Val.str "p"], [Val.str "x", Val.str "q"], [Val.str "x", Val.str "p"]])
       "input_1" [[Val.str "x", Val.str "p"], [Val.str "x", Val.null], [Val.str "y", Val.str "p"]]) = 2 := by
+  decide +kernel
+
+/-- two input tables under link_and_dedupe: the concatenation has the alias in column 0, the key is column 1 -/
+example : totalOf ((runStmts (Db.set (Db.set (fun _ => []) "a" [[Val.int 7], [Val.int 9]]) "b" [[Val.int 7], [Val.null]])
+      (selfCountStmts 1 ["a", "b"] [(Expr.col 1, Expr.col 1)])) nameTotal) = 5 ∧
+    concatRows ["a", "b"] (Db.set (Db.set (fun _ => []) "a" [[Val.int 7], [Val.int 9]]) "b" [[Val.int 7], [Val.null]])
+      = [[Val.str "a", Val.int 7], [Val.str "a", Val.int 9], [Val.str "b", Val.int 7], [Val.str "b", Val.null]] := by
+  decide +kernel
+
+/-- row counts per dataset: datasets `a, b, a` (column 0) -/
+example : rowCounts false (Expr.col 0) (Db.set (fun _ => []) "__splink__df_concat" [[Val.str "a"], [Val.str "b"], [Val.str "a"]])
+      = [[Val.int 2], [Val.int 1]] ∧
+    countsOf (rowCounts false (Expr.col 0) (Db.set (fun _ => []) "__splink__df_concat" [[Val.str "a"], [Val.str "b"], [Val.str "a"]]))
+      = [2, 1] ∧
+    rowCounts true (Expr.col 0) (Db.set (fun _ => []) "__splink__df_concat" [[Val.str "a"], [Val.str "b"], [Val.str "a"]])
+      = [[Val.int 3]] := by
   decide +kernel
 
 /-- an empty result: `sum` over no rows is NULL, which the Python code reads as 0. -/
